@@ -81,7 +81,7 @@ def apply_reserve_resource_constraint(machine, constraint):
                 = resources_after_reservation(
                     machine.chip_resource_exceptions[location],
                     constraint)
-            if overallocated(machine[location]):
+            if location in machine and overallocated(machine[location]):
                 raise InsufficientResourceError(
                     "Cannot meet {}".format(constraint))
     else:
